@@ -152,6 +152,10 @@ func (g *Gen) compWF(key string, name Term, top Term) {
 		return
 	}
 	if f := g.u.rangeFact(sel, t, top); f != "" {
+		if pf := g.u.plainFact(sel, t); pf != "" && !g.prog.interiorTaint(g.u).comps[key] {
+			// no interior reference is ever stored in this component (taint.go)
+			f = "(and " + f + " " + pf + ")"
+		}
 		g.assert(fmt.Sprintf("(forall %s (! %s :pattern (%s)))", binder, f, sel))
 	}
 }
